@@ -911,6 +911,39 @@ func (pc *progressCtx) lexEvalFiltered(c int64, known func(ssa.Instruction) bool
 			}
 		case *ssa.Call:
 			sc := x.Call.StaticCallee()
+			if sc == nil && !x.Call.IsInvoke() {
+				// a predicate handed in as a parameter (skipWhile(accept)): every function the callers pass must agree
+				if p, isP := x.Call.Value.(*ssa.Parameter); isP {
+					var args []constant.Value
+					for _, a := range x.Call.Args {
+						av, ok := ev(a)
+						if !ok {
+							return nil, false
+						}
+						args = append(args, av)
+					}
+					var res constant.Value
+					for _, fvv := range pc.m.resolveUp(p, nil, 0) {
+						var f *ssa.Function
+						switch y := fvv.(type) {
+						case *ssa.Function:
+							f = y
+						case *ssa.MakeClosure:
+							f, _ = y.Fn.(*ssa.Function)
+						}
+						if f == nil {
+							return nil, false
+						}
+						r, ok := pc.m.evalPure(f, args)
+						if !ok || (res != nil && !constant.Compare(res, token.EQL, r)) {
+							return nil, false
+						}
+						res = r
+					}
+					return res, res != nil
+				}
+				return nil, false
+			}
 			if sc == nil || !pc.m.InModule(sc) || sc.Signature.Recv() != nil {
 				return nil, false
 			}
